@@ -365,8 +365,13 @@ def immutable_harness(eng, sp, inst, desc):
 
     # touch the cached views first so that later mutation of a cached list would show
     views = (inst.durations_matrix, inst.machines_matrix, inst.operations_by_machine, inst.job_durations, inst.machine_loads)
-    views_before = D.snap_value([inst.durations_matrix, inst.machines_matrix, inst.job_durations, inst.machine_loads,
-                                 [[o.operation_id for o in l] for l in inst.operations_by_machine]])
+    def cached_views():
+        return D.snap_value([inst.durations_matrix, inst.machines_matrix, inst.job_durations, inst.machine_loads,
+                             [[o.operation_id for o in l] for l in inst.operations_by_machine],
+                             inst.durations_matrix_array, inst.machines_matrix_array, inst.max_duration_per_job,
+                             inst.max_duration_per_machine])
+
+    views_before = cached_views()
     disp = Dispatcher(inst)
     attach_observers(disp, inst)
     spec = Spec(desc)
@@ -393,9 +398,7 @@ def immutable_harness(eng, sp, inst, desc):
         unchanged("from_job_sequences-and-to_dict")
     env_episode(eng, inst, desc, spec)
     unchanged("single-env-episode")
-    D.prove_snap_equal(eng, views_before, D.snap_value([inst.durations_matrix, inst.machines_matrix, inst.job_durations,
-                                                        inst.machine_loads, [[o.operation_id for o in l] for l in inst.operations_by_machine]]),
-                       "C14/cached-view-modified")
+    D.prove_snap_equal(eng, views_before, cached_views(), "C14/cached-view-modified")
     eng.observe("mk", sched.makespan())
 
 
